@@ -117,13 +117,15 @@ def gen_scenarios(spec, rng, n):
                 if op["kind"] == "mixin" and rng.random() < 0.15:
                     # the server answers this mixin call with an error status: it must reach the caller as the api-core
                     # exception of that status on the sync AND the asyncio client (the property: "alike")
-                    op["fault"] = rng.choice(["UNAVAILABLE", "NOT_FOUND", "PERMISSION_DENIED", "ABORTED", "INTERNAL"])
+                    op["fault"] = rng.choice(["UNAVAILABLE", "NOT_FOUND", "PERMISSION_DENIED", "UNAUTHENTICATED", "ABORTED", "INTERNAL"])
+        sc_creds = rng.random() < 0.5      # the transport was built from credentials that can describe themselves
         if rng.random() < 0.4:
             shared = rng.random() < 0.7
             for op in ops:
                 if op["kind"] == "mixin":
                     op["call"] = {"metadata": [["x-caller-tag", "t1"]], **({"metadata_shared": "m1"} if shared else {})}
-        out.append({"client": client, "actors": [{"start": 0.0, "ops": ops}], "jitter_default": 0.0})
+        out.append({"client": client, "actors": [{"start": 0.0, "ops": ops}], "jitter_default": 0.0,
+                    **({"credentials": "refreshable"} if sc_creds else {})})
     return out
 
 
